@@ -107,6 +107,17 @@ theorem zipAdd_safe (it : Iter) (d1 d2 : Deque) (x y : Nat) (m : Mem) (h1 : d1.I
     rcases growIfFull_spec d2 (growIfFull d1 m).2.2 h2 with ⟨b1, b2, b3, b4, b5, b6⟩ | ⟨b1, b2, b3, b4⟩
     · have hne2 : ((growIfFull d2 (growIfFull d1 m).2.2).1 != Stat.ok) = false := by simp [b1]
       simp only [hne2, Bool.false_eq_true, if_false]
+      have hok1 := addAt_ok_of_room (growIfFull d1 m).2.1 x it.index (growIfFull d2 (growIfFull d1 m).2.2).2.2 a2
+        (by rw [a4]; omega) a5
+      have hok2 := addAt_ok_of_room (growIfFull d2 (growIfFull d1 m).2.2).2.1 y it.index
+        ((growIfFull d1 m).2.1.addAt x it.index (growIfFull d2 (growIfFull d1 m).2.2).2.2).2.2 b2
+        (by rw [b4]; omega) b5
+      have hb1 : (((growIfFull d1 m).2.1.addAt x it.index (growIfFull d2 (growIfFull d1 m).2.2).2.2).1 != Stat.ok) = false := by
+        simp [hok1]
+      have hb2 : (((growIfFull d2 (growIfFull d1 m).2.2).2.1.addAt y it.index
+        ((growIfFull d1 m).2.1.addAt x it.index (growIfFull d2 (growIfFull d1 m).2.2).2.2).2.2).1 != Stat.ok) = false := by
+        simp [hok2]
+      simp only [hb1, hb2, Bool.false_eq_true, if_false]
       obtain ⟨p1, p2, _, _⟩ := addAt_inv (growIfFull d1 m).2.1 x it.index (growIfFull d2 (growIfFull d1 m).2.2).2.2 a2
       obtain ⟨q1, q2, _, _⟩ := addAt_inv (growIfFull d2 (growIfFull d1 m).2.2).2.1 y it.index
         ((growIfFull d1 m).2.1.addAt x it.index (growIfFull d2 (growIfFull d1 m).2.2).2.2).2.2 b2
